@@ -102,7 +102,7 @@ def detect(ID, VAR, checks):
             if r.returncode not in (0, 1):
                 det[c]["tail"] = r.stdout[-400:]
     finally:
-        sh("git -C /repo checkout -- .")
+        sh("git -C /repo checkout -- . ; git -C /repo clean -fdq")
     print(ID, VAR, json.dumps(det))
     json.dump(det, open(f"{out}/detect.json", "w"), indent=1)
     return det
